@@ -93,7 +93,7 @@ func (m *Model) ruleHLC(r *Results) {
 			}
 			n++
 			key := "CALL / " + m.declName(fn)
-			if closures[fn] {
+			if closures[fn] || m.onlyCalledFrom(fn, closures, 0) {
 				r.ok(rule, key, m.instrPos(c), "CAS drawn inside the transaction closure (under the bucket mutex, inside BEGIN..COMMIT)")
 			} else {
 				r.bad(rule, key, m.instrPos(c), "CAS is drawn from the clock outside a transaction closure: two writers can then commit in the opposite order of their CAS values, and a document's CAS can go backwards")
@@ -334,11 +334,15 @@ func (m *Model) ruleMONO(r *Results) {
 	}
 	// the high-water field: the uint64 field of the clock stored to in Now
 	var hw *types.Var
-	for _, b := range a.ClockNow.Blocks {
-		for _, in := range b.Instrs {
-			if st, ok := in.(*ssa.Store); ok {
-				if fa, ok := st.Addr.(*ssa.FieldAddr); ok && ownerIs(fa, a.ClockType) {
-					hw = fieldOf(fa)
+	for g := range m.reachableLocal(a.ClockNow) {
+		for _, b := range g.Blocks {
+			for _, in := range b.Instrs {
+				if st, ok := in.(*ssa.Store); ok {
+					if fa, ok := st.Addr.(*ssa.FieldAddr); ok && ownerIs(fa, a.ClockType) {
+						if bt, ok := fieldOf(fa).Type().Underlying().(*types.Basic); ok && bt.Kind() == types.Uint64 {
+							hw = fieldOf(fa)
+						}
+					}
 				}
 			}
 		}
@@ -575,6 +579,19 @@ func (m *Model) ruleEVT45(r *Results) {
 	clean := true
 	filtered := false
 	visited := map[*ssa.Function]bool{}
+	// unitStoresOnly: no store through the shared event in a helper that only chooses what to push
+	unitStoresOnly := func(h *ssa.Function, hp *ssa.Parameter) {
+		for _, b := range h.Blocks {
+			for _, in := range b.Instrs {
+				if st, ok := in.(*ssa.Store); ok {
+					if fa, ok := st.Addr.(*ssa.FieldAddr); ok && stripConv(fa.X) == ssa.Value(hp) {
+						clean = false
+						r.bad(rule, m.declName(a.FanoutFn)+" / store through shared event", m.instrPos(st), "the fan-out writes field %s of the event object that is shared by every feed of the collection: the other feeds receive the altered event", fieldOf(fa).Name())
+					}
+				}
+			}
+		}
+	}
 	var unit func(fn *ssa.Function, evParam *ssa.Parameter, ctxKeysOnly bool)
 	unit = func(fn *ssa.Function, evParam *ssa.Parameter, ctxKeysOnly bool) {
 		if visited[fn] {
@@ -674,20 +691,61 @@ func (m *Model) ruleEVT45(r *Results) {
 				r.check(!onKeysOnly(c.Block()), rule, key+" shared", m.instrPos(c), "full event pushed to a feed that wants values", "a keys-only feed is given the full event (with its body)")
 				return
 			}
-			al, ok := stripConv(arg).(*ssa.Alloc)
-			cleared := false
-			if ok {
+			isPrivateCopy := func(v ssa.Value) bool {
+				al, ok := stripConv(v).(*ssa.Alloc)
+				if !ok {
+					return false
+				}
 				for _, ref := range *al.Referrers() {
 					if fa, ok := ref.(*ssa.FieldAddr); ok && fieldOf(fa).Name() == "Value" {
 						for _, r2 := range *fa.Referrers() {
 							if st, ok := r2.(*ssa.Store); ok && isNilConst(st.Val) {
-								cleared = true
+								return true
 							}
 						}
 					}
 				}
+				return false
 			}
-			r.check(ok && cleared, rule, key+" private copy", m.instrPos(c), "keys-only feeds get a private copy with Value cleared", "pushed event is neither the shared event nor a private copy with Value cleared")
+			// the event to push may be chosen by a helper that is handed the shared event
+			if hc, ok := stripConv(arg).(*ssa.Call); ok {
+				if h := hc.Common().StaticCallee(); h != nil && m.inPkg(h) && len(h.Blocks) > 0 {
+					var hp *ssa.Parameter
+					for i, p := range h.Params {
+						if i < len(hc.Common().Args) && isPtrToNamed(p.Type(), sgbucketPath, "FeedEvent") && shared(hc.Common().Args[i]) {
+							hp = p
+						}
+					}
+					if hp != nil {
+						ctxKO := onKeysOnly(c.Block())
+						for _, ret := range returnsOf(h) {
+							if len(ret.Results) != 1 {
+								continue
+							}
+							rv := stripConv(ret.Results[0])
+							switch {
+							case rv == ssa.Value(hp):
+								ko := ctxKO
+								for _, ct := range controllingConds(h, ret.Block()) {
+									if _, f, ok := fieldLoad(ct.If.Cond); ok && f.Name() == "KeysOnly" && ct.Branch {
+										ko = true
+									}
+								}
+								r.check(!ko, rule, key+" shared", m.instrPos(ret), "full event pushed to a feed that wants values", "a keys-only feed is given the full event (with its body)")
+							case isPrivateCopy(rv):
+								nPush++
+								r.ok(rule, key+" private copy", m.instrPos(ret), "keys-only feeds get a private copy with Value cleared")
+							default:
+								r.bad(rule, key+" private copy", m.instrPos(ret), "pushed event is neither the shared event nor a private copy with Value cleared")
+							}
+						}
+						// stores through the shared event inside the chooser
+						unitStoresOnly(h, hp)
+						return
+					}
+				}
+			}
+			r.check(isPrivateCopy(arg), rule, key+" private copy", m.instrPos(c), "keys-only feeds get a private copy with Value cleared", "pushed event is neither the shared event nor a private copy with Value cleared")
 		})
 	}
 	fn := a.FanoutFn
@@ -1382,4 +1440,48 @@ func (m *Model) fieldInCond(v ssa.Value, depth int) (string, bool) {
 		}
 	}
 	return "", false
+}
+
+// onlyCalledFrom: every static call of fn (at least one) comes from a function of the set, or from
+// a function for which the same holds (bounded depth); fn is never used as a value.
+func (m *Model) onlyCalledFrom(fn *ssa.Function, set map[*ssa.Function]bool, depth int) bool {
+	if depth > 3 || fn.Parent() != nil {
+		return false
+	}
+	if obj := fn.Object(); obj != nil && obj.Exported() {
+		return false
+	}
+	if refs := fn.Referrers(); refs != nil {
+		// (Referrers is nil for package-level functions; closures are excluded above)
+		_ = refs
+	}
+	callers := m.staticCallersOf(fn)
+	if len(callers) == 0 {
+		return false
+	}
+	for _, c := range callers {
+		if _, isGo := c.(*ssa.Go); isGo {
+			return false
+		}
+		p := c.Parent()
+		if !set[p] && !m.onlyCalledFrom(p, set, depth+1) {
+			return false
+		}
+	}
+	// used as a function value anywhere?
+	for _, g := range m.Funcs {
+		for _, b := range g.Blocks {
+			for _, in := range b.Instrs {
+				for _, op := range in.Operands(nil) {
+					if *op == ssa.Value(fn) {
+						if c, ok := in.(ssa.CallInstruction); ok && c.Common().Value == ssa.Value(fn) {
+							continue
+						}
+						return false
+					}
+				}
+			}
+		}
+	}
+	return true
 }
